@@ -192,7 +192,7 @@ let spec_ruis cap progs rets final =
     | Rel (lock, _) ->
       if r.tag <> 2 || r.pay > 2 then fail "unexpected release result"
       else if r.pay = 2 then begin
-        (match r.e with Some e when e.rec_start <= r.p -> () | _ -> fail (Printf.sprintf "thread %d: release says IndexIsNotOwnedByProvidedOwner for an index it owns" r.t))
+        (match r.e with Some e when e.rec_start <= r.p -> () | _ -> fail (Printf.sprintf "thread %d: release says IndexIsNotOwnedByProvidedOwner for an index it owns although no recover took its owner id (a cell was cleared that did not hold the recovered owner)" r.t))
       end else if r.pay = 1 then begin
         if not lock then fail "release(Default) returned Locked";
         List.iter (fun e -> if (not (is_own r e)) && def_covers e r.start r.p then
